@@ -381,7 +381,8 @@ func (e *c5e) hasTopConj() bool {
 	return false
 }
 
-// nestedEmbedding: an embedding occurs anywhere inside an embedded expression.
+// nestedEmbedding: an embedding occurs anywhere inside an embedded expression, or inside a
+// field/pattern value of a struct literal that itself has embeddings (interacting scopes).
 func (e *c5e) nestedEmbedding() bool {
 	hasEmb := func(n *c5e) bool {
 		if n.op != '{' {
@@ -398,9 +399,21 @@ func (e *c5e) nestedEmbedding() bool {
 		if n.op != '{' {
 			return false
 		}
+		nEmb := 0
 		for _, d := range n.decls {
-			if d.kind == 'e' && d.v.anyNode(hasEmb) {
-				return true
+			if d.kind == 'e' {
+				nEmb++
+				if d.v.anyNode(hasEmb) {
+					return true
+				}
+			}
+		}
+		if nEmb > 0 {
+			// ... or inside a field/pattern value of a struct that itself has embeddings
+			for _, d := range n.decls {
+				if (d.kind == 'f' || d.kind == 'p') && d.v.anyNode(hasEmb) {
+					return true
+				}
 			}
 		}
 		return false
@@ -655,11 +668,9 @@ func c5genLit(r *Rng, depth int, noReg bool) *c5e {
 		case 9:
 			ds = append(ds, ellD())
 		default:
-			if r.Chance(1, 4) {
-				ds = append(ds, emb(c5genStruct(r, depth, true, true)))
-			} else {
-				ds = append(ds, emb(c5genStruct(r, depth, false, noReg)))
-			}
+			// (embedded CONJUNCTIONS only occur in the corpus: the evaluator checks them for
+			// internal consistency and closes children neither operand defines, see notes)
+			ds = append(ds, emb(c5genStruct(r, depth, false, noReg)))
 		}
 	}
 	return lit(ds...)
